@@ -160,3 +160,121 @@ pub fn build_archive(ctx: &crate::engine::Ctx, c: &Collection, tag: &str) -> Res
     let create = cli_create(&ctx.ragc, &c.params, &archive, &inputs).map_err(|e| format!("harness: cannot run ragc: {}", e))?;
     Ok(Built { dir, archive, inputs, create })
 }
+
+// ------------------------------------------------------------ in-process create --
+
+/// Knobs for the in-process create (what the harness, as producer, may vary).
+#[derive(Clone, Debug, Default)]
+pub struct InprocOpts {
+    /// sleep before the i-th push (cyclic), microseconds
+    pub push_delays_us: Vec<u32>,
+    /// extra explicit sync_and_flush after every n-th contig (0 = never)
+    pub extra_sync_every: usize,
+}
+
+/// The exact call sequence of `ragc create` (ragc-cli/src/main.rs, streaming-queue mode),
+/// driven in-process so that hooks can be installed and the `Result`s are visible.
+pub fn create_inproc(p: &Params, inputs: &[PathBuf], out: &Path, opts: &InprocOpts) -> Result<(), String> {
+    use ragc_core::contig_iterator::ContigIterator;
+    use ragc_core::{MultiFileIterator, StreamingQueueCompressor, StreamingQueueConfig};
+    if inputs.is_empty() {
+        return Err("No input files provided".into());
+    }
+    let config = StreamingQueueConfig {
+        k: p.k as usize,
+        segment_size: p.segment_size as usize,
+        min_match_len: p.min_match as usize,
+        pack_size: p.pack as usize,
+        queue_capacity: p.queue_capacity as usize,
+        num_threads: p.threads as usize,
+        verbosity: 0,
+        adaptive_mode: false,
+        fallback_frac: p.fallback_permille as f64 / 1000.0,
+        concatenated_genomes: inputs.len() == 1,
+        ..StreamingQueueConfig::default()
+    };
+    let e = |x: anyhow::Error| format!("{:#}", x);
+    let splitters = if inputs.len() == 1 {
+        ragc_core::determine_splitters_streaming_first_sample(&inputs[0], p.k as usize, p.segment_size as usize).map_err(e)?.0
+    } else {
+        ragc_core::determine_splitters_streaming(&inputs[0], p.k as usize, p.segment_size as usize).map_err(e)?.0
+    };
+    let mut compressor = StreamingQueueCompressor::with_splitters(out.to_string_lossy().to_string(), config, splitters).map_err(e)?;
+    let mut pushed = 0usize;
+    let mut pace = |compressor: &StreamingQueueCompressor, sample: &str| -> Result<(), String> {
+        if !opts.push_delays_us.is_empty() {
+            let d = opts.push_delays_us[pushed % opts.push_delays_us.len()];
+            if d > 0 {
+                std::thread::sleep(Duration::from_micros(d as u64));
+            }
+        }
+        pushed += 1;
+        if opts.extra_sync_every > 0 && pushed % opts.extra_sync_every == 0 {
+            compressor.sync_and_flush(sample).map_err(|x| format!("{:#}", x))?;
+        }
+        Ok(())
+    };
+    if inputs.len() == 1 {
+        let mut it = MultiFileIterator::new(vec![inputs[0].clone()]).map_err(e)?;
+        let mut current: Option<String> = None;
+        let mut seen: std::collections::HashSet<String> = Default::default();
+        let mut reference_done = false;
+        while let Some((sample, contig, seq)) = it.next_contig().map_err(e)? {
+            if seq.is_empty() {
+                continue;
+            }
+            if current.as_ref() != Some(&sample) {
+                if seen.contains(&sample) {
+                    return Err(format!("Single-file PanSN mode requires samples to be sorted by name. Saw sample '{}' again", sample));
+                }
+                if !reference_done && current.is_some() {
+                    compressor.drain().map_err(e)?;
+                    reference_done = true;
+                }
+                if let Some(prev) = current.take() {
+                    seen.insert(prev);
+                }
+                current = Some(sample.clone());
+            }
+            pace(&compressor, &sample)?;
+            compressor.push(sample, contig, seq).map_err(e)?;
+        }
+    } else {
+        let mut it = MultiFileIterator::new(vec![inputs[0].clone()]).map_err(e)?;
+        while let Some((sample, contig, seq)) = it.next_contig().map_err(e)? {
+            if !seq.is_empty() {
+                pace(&compressor, &sample)?;
+                compressor.push(sample, contig, seq).map_err(e)?;
+            }
+        }
+        compressor.drain().map_err(e)?;
+        compressor.sync_and_flush("AAA#0_REF").map_err(e)?;
+        for f in &inputs[1..] {
+            let mut it = MultiFileIterator::new(vec![f.clone()]).map_err(e)?;
+            while let Some((sample, contig, seq)) = it.next_contig().map_err(e)? {
+                if !seq.is_empty() {
+                    pace(&compressor, &sample)?;
+                    compressor.push(sample, contig, seq).map_err(e)?;
+                }
+            }
+        }
+    }
+    compressor.finalize().map_err(e)
+}
+
+/// Spawn `exe` with a file-size limit: the first write that would pass `limit` bytes fails with
+/// EFBIG (SIGXFSZ ignored), after a partial write - the same shape as a full disk.
+pub fn run_with_fsize_limit(mut cmd: Command, limit: u64, timeout: Duration) -> std::io::Result<CmdOut> {
+    use std::os::unix::process::CommandExt;
+    unsafe {
+        cmd.pre_exec(move || {
+            libc::signal(libc::SIGXFSZ, libc::SIG_IGN);
+            let lim = libc::rlimit { rlim_cur: limit, rlim_max: limit };
+            if libc::setrlimit(libc::RLIMIT_FSIZE, &lim) != 0 {
+                return Err(std::io::Error::last_os_error());
+            }
+            Ok(())
+        });
+    }
+    run_cmd(cmd, timeout)
+}
